@@ -30,6 +30,7 @@ CONSTANTS Hs, Ms, Ks, Bs, Fs,          \* timestep, mass, stiffness, damping, ap
           Actuations, GroupOns,        \* subsets of BOOLEAN: actuation enabled, the actuator's group enabled
           Acts,                        \* subset of the preset names below
           MaxSteps,
+          MaxOff,                      \* at most this many of the five flags disabled at once
           Variant,                     \* "doc" = the documented schemes; anything else is a deliberately wrong scheme
                                        \* used as negative control ("explicitpos", "rk38": the invariants must fail)
           Bound, BoundRK               \* a step starts only from a state whose numerators/denominators are <= Bound
@@ -47,7 +48,7 @@ Preset(nm) ==
     [] nm = "affgain" -> [NoAct EXCEPT !.name = nm, !.dyn = "none", !.g0 = One, !.g1 = R(1, 2), !.g2 = R(-1, 2), !.b0 = R(1, 2)]
     [] nm = "affgaincl" -> [NoAct EXCEPT !.name = nm, !.dyn = "none", !.g0 = One, !.g2 = R(-1, 2),
                                          !.clim = TRUE, !.clo = RI(-1), !.chi = One]
-    [] nm = "integ"   -> [NoAct EXCEPT !.name = nm, !.dyn = "integrator", !.g0 = RI(2), !.alim = TRUE, !.alo = RI(-1), !.ahi = One]
+    [] nm = "integ"   -> [NoAct EXCEPT !.name = nm, !.dyn = "integrator", !.g0 = RI(2), !.alim = TRUE, !.alo = RI(-1), !.ahi = R(3, 4)]
     [] nm = "intfree" -> [NoAct EXCEPT !.name = nm, !.dyn = "integrator", !.g0 = One, !.b2 = RI(-1)]
     [] nm = "intearly" -> [NoAct EXCEPT !.name = nm, !.dyn = "integrator", !.g0 = One, !.b1 = RI(-1), !.early = TRUE,
                                         !.alim = TRUE, !.alo = R(-1, 2), !.ahi = R(3, 4)]
@@ -137,25 +138,58 @@ Exact(pp, st, uu, div) ==
 SmallState(st, B) == SmallR(st.q, B) /\ SmallR(st.v, B) /\ SmallR(st.w, B) /\ SmallR(st.t, B)
 
 \* ---- behaviours ----------------------------------------------------------------------------------------------
-Params0 == {pp \in [h : Hs, m : Ms, k : Ks, b : Bs, f : Fs, integ : Integs, edamp : EDamps, damper : Dampers,
-                   spring : Springs, actuation : Actuations, groupon : GroupOns, act : Acts] :
-             \* flags that cannot matter are kept at their default, so that no case is enumerated twice
-             /\ (pp.integ # "Euler" => pp.edamp)
-             /\ (~HasAct(AP(pp)) => pp.actuation /\ pp.groupon)
-             /\ (IsZero(BEff0(pp)) => pp.damper /\ pp.edamp)
-             /\ (IsZero(pp.k) => pp.spring)}
-Ext(pp) == [h |-> pp.h, m |-> pp.m, k |-> pp.k, b |-> pp.b, f |-> pp.f, integ |-> pp.integ, edamp |-> pp.edamp,
-            damper |-> pp.damper, spring |-> pp.spring, actuation |-> pp.actuation, groupon |-> pp.groupon, act |-> pp.act,
-            meff |-> MEff0(pp), beff |-> BEff0(pp)]
-Params == {Ext(pp) : pp \in Params0}
 NoFw == [wdot |-> Zero, af |-> Zero, qa |-> Zero, pas |-> Zero, F |-> Zero, qacc |-> Zero, D |-> Zero]
+S0 == [q |-> Zero, v |-> Zero, w |-> Zero, t |-> Zero]
+P0 == [h |-> One, m |-> One, k |-> Zero, b |-> Zero, f |-> Zero, integ |-> "Euler", edamp |-> TRUE, damper |-> TRUE,
+       spring |-> TRUE, actuation |-> TRUE, groupon |-> TRUE, act |-> "none", meff |-> One, beff |-> Zero]
 
-Init == /\ p \in Params
-        /\ s \in [q : Q0s, v : V0s, w : W0s, t : T0s]
-        /\ (~HasState(AP(p)) => s.w = Zero)
-        /\ (AP(p).alim => Le(AP(p).alo, s.w) /\ Le(s.w, AP(p).ahi))
-        /\ x = s /\ u = Zero /\ fw = NoFw /\ pc = "ctl" /\ stage = 0 /\ ks = << >> /\ n = 0
+\* The case is set up the way a user sets it up: compile a model, write the options, write the state.
+\* (Also keeps the branching of every step small: TLC's simulator enumerates all successors of a state.)
+Init == /\ p = P0 /\ s = S0 /\ x = S0 /\ u = Zero /\ fw = NoFw /\ pc = "model" /\ stage = 0 /\ ks = << >> /\ n = 0
         /\ ev = [op |-> "init"]
+
+PickModel ==          \* mj_compile, body and joint: mass, spring, damper; applied force
+  /\ pc = "model"
+  /\ \E mm \in Ms, kk \in Ks, bb \in Bs, ff \in Fs : p' = [p EXCEPT !.m = mm, !.k = kk, !.b = bb, !.f = ff]
+  /\ pc' = "actuator" /\ ev' = [op |-> "model"]
+  /\ UNCHANGED <<s, x, u, fw, stage, ks, n>>
+
+PickActuator ==       \* mj_compile, actuator (with its reflected armature and damping)
+  /\ pc = "actuator"
+  /\ \E aa \in Acts : LET pp == [p EXCEPT !.act = aa] IN p' = [pp EXCEPT !.meff = MEff0(pp), !.beff = BEff0(pp)]
+  /\ pc' = "integrator" /\ ev' = [op |-> "actuator"]
+  /\ UNCHANGED <<s, x, u, fw, stage, ks, n>>
+
+PickIntegrator ==     \* mjOption: timestep, integrator
+  /\ pc = "integrator"
+  /\ \E hh \in Hs, ii \in Integs :
+       \* RK4 only on all-dyadic systems: four nested stages over mixed denominators leave TLC's 32-bit integers
+       /\ (ii = "RK4" => Dyadic(hh) /\ Pow2Rat(p.meff) /\ (AP(p).dyn = "filter" => Pow2Rat(AP(p).tau)))
+       /\ p' = [p EXCEPT !.h = hh, !.integ = ii]
+  /\ pc' = "flags" /\ ev' = [op |-> "integrator"]
+  /\ UNCHANGED <<s, x, u, fw, stage, ks, n>>
+
+PickFlags ==          \* mjOption: disable flags, disabled actuator groups
+  /\ pc = "flags"
+  /\ \E ed \in EDamps, da \in Dampers, sp \in Springs, ac \in Actuations, go \in GroupOns :
+       \* flags that cannot matter are kept at their default, so that no case is enumerated twice
+       /\ (p.integ # "Euler" => ed)
+       /\ (~HasAct(AP(p)) => ac /\ go)
+       /\ (IsZero(p.beff) => da /\ ed)
+       /\ (IsZero(p.k) => sp)
+       /\ Cardinality({i \in 1..5 : ~<<ed, da, sp, ac, go>>[i]}) <= MaxOff
+       /\ p' = [p EXCEPT !.edamp = ed, !.damper = da, !.spring = sp, !.actuation = ac, !.groupon = go]
+  /\ pc' = "state" /\ ev' = [op |-> "flags"]
+  /\ UNCHANGED <<s, x, u, fw, stage, ks, n>>
+
+PickState ==          \* qpos, qvel, act, time
+  /\ pc = "state"
+  /\ \E s0 \in [q : Q0s, v : V0s, w : W0s, t : T0s] :
+       /\ (~HasState(AP(p)) => s0.w = Zero)
+       /\ (AP(p).alim => Le(AP(p).alo, s0.w) /\ Le(s0.w, AP(p).ahi))
+       /\ s' = s0 /\ x' = s0
+  /\ pc' = "ctl" /\ ev' = [op |-> "state"]
+  /\ UNCHANGED <<p, u, fw, stage, ks, n>>
 
 SetCtrl(uu) ==
   /\ pc = "ctl" /\ n < MaxSteps
@@ -191,6 +225,7 @@ WSum(kk, c, k, fld) == IF k = 0 THEN Zero ELSE Add(WSum(kk, c, k - 1, fld), Mul(
 
 RKStage ==
   /\ pc = "int" /\ p.integ = "RK4" /\ stage < 4
+  /\ SmallState(x, 4096) /\ SmallR(fw.qacc, 4096) /\ SmallR(fw.wdot, 4096)      \* else the behaviour ends here (32-bit range)
   /\ LET k2 == Append(ks, [dq |-> x.v, dv |-> fw.qacc, dw |-> fw.wdot])
          c  == RKA[stage + 1] IN
      /\ ks' = k2
@@ -208,14 +243,15 @@ RKFinish ==
          acc == WSum(k2, RKB, 4, "dv") IN
      Done(Advance(p, s, WSum(k2, RKB, 4, "dw"), acc, FALSE, WSum(k2, RKB, 4, "dq")), acc, One)
 
-Next == (\E uu \in (IF HasAct(AP(p)) THEN Us ELSE {Zero}) : SetCtrl(uu)) \/ Forward \/ Euler \/ Implicit \/ RKStage \/ RKFinish
+Env == \E uu \in (IF HasAct(AP(p)) THEN Us ELSE {Zero}) : SetCtrl(uu)
+Next == PickModel \/ PickActuator \/ PickIntegrator \/ PickFlags \/ PickState \/ Env \/ Forward \/ Euler \/ Implicit \/ RKStage \/ RKFinish
 Spec == Init /\ [][Next]_vars
 
 \* ---- properties ------------------------------------------------------------------------------------------------
 IsStep == ev.op = "step"
-TypeOK == /\ pc \in {"ctl", "fwd", "int"} /\ n \in 0..MaxSteps /\ stage \in 0..4 /\ Len(ks) \in 0..3
+TypeOK == /\ pc \in {"model", "actuator", "integrator", "flags", "state", "ctl", "fwd", "int"} /\ n \in 0..MaxSteps /\ stage \in 0..4 /\ Len(ks) \in 0..3
           /\ \A z \in {s.q, s.v, s.w, s.t, x.q, x.v, x.w} : z[2] > 0 /\ GCD(IAbs(z[1]), z[2]) = 1
-DerivedOK == n = 0 /\ pc = "ctl" => p.meff = MEff0(p) /\ p.beff = BEff0(p)
+DerivedOK == pc \notin {"model", "actuator"} => p.meff = MEff0(p) /\ p.beff = BEff0(p)
 \* time advances by exactly one timestep per completed step
 TimeAdvances == IsStep => ev.post.t = Add(ev.pre.t, ev.p.h)
 TimeIsSteps  == pc = "ctl" /\ n > 0 => \E t0 \in T0s : s.t = Add(t0, Mul(RI(n), p.h))
@@ -284,7 +320,8 @@ L_F1 == {One}                     L_F2 == {Zero, One}               L_F == {RI(-
 L_Q2 == {R(1, 2)}                 L_Q3 == Qs({-2, 1}, 2)            L_Q == Qs(-2..2, 2)
 L_V2 == {R(-1, 2), One}           L_V3 == Qs({-1, 2}, 2)            L_V == Qs(-2..2, 2)
 L_W == {R(-1, 2), Zero, R(1, 2)}  L_W2 == {Zero, R(1, 2)}
-L_T0 == {Zero}                    L_T == {Zero, R(5, 8), RI(3)}
+L_T0 == {Zero}                    L_T2 == {Zero, R(5, 8)}
+L_T == {Zero, R(5, 8), RI(3)}
 L_U == {RI(-2), R(1, 2), RI(2)}   L_U2 == {R(1, 2), RI(2)}           L_UX == {RI(-2), RI(-1), Zero, R(1, 2), One, RI(2)}
 L_AllInt == {"Euler", "RK4", "implicit", "implicitfast"}
 L_Single == {"Euler", "implicit", "implicitfast"}
@@ -292,6 +329,6 @@ L_RK == {"RK4"}
 L_True == {TRUE}
 L_Bool == BOOLEAN
 L_Passive == {"none"}
-L_ActsQ == {"motor", "servo", "integ", "filterlim", "reflect"}
+L_ActsQ == {"none", "servo", "integ", "filterlim", "reflect", "affgaincl"}
 L_ActsA == AllPresets \ {"none"}
 =============================================================================
